@@ -423,6 +423,81 @@ func execC06Bubble(r *kernel.Run, s C06Spec) {
 		// whole-message replay from the other run
 		judge(fmt.Sprintf("m%d:replay-other-run", msg), "replay", msg, kernel.Path{}, wires[msg], donors[msg])
 	}
+	// Byzantine issuer (it has the private key): message 3 deviates in two coordinated places
+	byz := func(id string, mk func(U *big.Int) (*gabi.IssueSignatureMessage, error)) {
+		if !wanted(s.OnlyFault, id) {
+			return
+		}
+		r.Eval(1)
+		r.Fault("byzantine-issuer")
+		var cm gabi.IssueCommitmentMessage
+		mustUnmarshal(a.wire2, &cm)
+		pu, _ := cm.Proofs.GetFirstProofU()
+		sm, err := mk(pu.U)
+		if err != nil || sm == nil {
+			r.Probe("byzantine-issuer-could-not-build")
+			return
+		}
+		a.mIssuer = sm.MIssuer
+		w3, err := json.Marshal(sm)
+		if err != nil {
+			return
+		}
+		var cred *gabi.Credential
+		var ferr error
+		if p, fr := guardFrame(func() { cred, ferr = a.holderFinish(w3) }); p != "" {
+			r.Violate("C06:panic:"+fr, map[string]any{"fault": id}, "%s: holder panics: %s", id, p)
+			return
+		}
+		if ferr == nil && cred != nil {
+			r.Probe("credential-produced-under-fault")
+			a.checkIssued(r, id, cred)
+		} else {
+			r.Probe("rejected-at-holder-construct")
+		}
+		a.mIssuer = honestIssuerShares
+	}
+	{
+		pk := key.Pk
+		issuer := gabi.NewIssuer(key.Sk, pk, a.context)
+		var cm gabi.IssueCommitmentMessage
+		mustUnmarshal(a.wire2, &cm)
+		var wit *revocation.Witness
+		if a.witness != nil {
+			cp := *a.witness
+			wit = &cp
+		}
+		for bi, base := range []*big.Int{pk.R[min(1, len(pk.R)-1)], pk.S, pk.R[0]} {
+			K := new(big.Int).Exp(base, big.NewInt(int64(5+bi)), pk.N)
+			kk := K
+			// signs U*K instead of U and declares K as "keyshare contribution"
+			byz(fmt.Sprintf("byzantine:sign-U*K-with-KeyshareP:%d", bi), func(U *big.Int) (*gabi.IssueSignatureMessage, error) {
+				UK := new(big.Int).Mul(U, kk)
+				UK.Mod(UK, pk.N)
+				sm, err := issuer.IssueSignature(UK, a.attrs, wit, cm.Nonce2, a.blind)
+				if err == nil {
+					sm.Signature.KeyshareP = kk
+				}
+				return sm, err
+			})
+			// honest signature, only the declared contribution set
+			byz(fmt.Sprintf("byzantine:KeyshareP-only:%d", bi), func(U *big.Int) (*gabi.IssueSignatureMessage, error) {
+				sm, err := issuer.IssueSignature(U, a.attrs, wit, cm.Nonce2, a.blind)
+				if err == nil {
+					sm.Signature.KeyshareP = kk
+				}
+				return sm, err
+			})
+		}
+		// signs other attribute values than it was asked to (the holder passes its own list to ConstructCredential)
+		if len(a.attrs) > 0 && a.attrs[0] != nil {
+			byz("byzantine:other-attribute", func(U *big.Int) (*gabi.IssueSignatureMessage, error) {
+				other := append([]*big.Int{}, a.attrs...)
+				other[0] = new(big.Int).Add(other[0], big.NewInt(1))
+				return issuer.IssueSignature(U, other, wit, cm.Nonce2, a.blind)
+			})
+		}
+	}
 	// replay message 3 of an earlier session of the same holder and issuer (fresh builder: holder restarted between commit and construct)
 	if wanted(s.OnlyFault, "crash-restart-holder") {
 		r.Fault("crash-restart")
